@@ -137,6 +137,7 @@ for _o in (1, 2):
 
 # ------------------------------------------------------------------------------------------------ rescale_var
 RS = "reb_simulation_rescale_var"
+IAS_DP7 = ("b", "e", "br", "er", "csb")
 
 
 def rescale_setup(v, order, testparticle, integrator=None):
@@ -162,6 +163,22 @@ def rescale_setup(v, order, testparticle, integrator=None):
     if integrator is not None:
         r.integrator = v.enumc(integrator)
     v.contract("reb_simulation_warning", lambda eng, st, args, n: None)
+    # IAS15 keeps predictor coefficients (b, e, br, er), compensated-summation terms of b (csb) and of the coordinates
+    # (csx, csv) per coordinate: 3*N_allocated/3 doubles each, index 3*particle + component
+    Na = v.int("ias15_N_allocated")
+    v.assume(Na >= 0)
+    r.ri_ias15.N_allocated = Na
+    ias = {}
+    for nm in IAS_DP7:
+        for c in range(7):
+            a = v.array("double", Na, "ias15_%s_p%d" % (nm, c))
+            ias[(nm, c)] = a
+            setattr(getattr(r.ri_ias15, nm), "p%d" % c, a.ptr)
+    for nm in ("csx", "csv"):
+        a = v.array("double", Na, "ias15_" + nm)
+        ias[(nm, None)] = a
+        setattr(r.ri_ias15, nm, a.ptr)
+    v.task_ias = (Na, ias, {k: a.array() for k, a in ias.items()})
     return r, rp, parts, vc, idx, lr, cnt
 
 
@@ -174,9 +191,18 @@ def rescale_loops(v, parts, idx, cnt, old, skolems=()):
     k = z3.Int("k")
     loops = v.loops_of(RS)
     maxloop = [o for (o, info) in loops if info["depth"] == 1 and "fabs" in info["calls"]]
-    divloop = [o for (o, info) in loops if info["depth"] == 1 and "fabs" not in info["calls"] and "reb_simulation_warning" not in info["calls"]]
-    v.ground("rescale.shape", len(maxloop) == 1 and len(divloop) == 1, "max loop %s, dividing loop %s" % (maxloop, divloop))
+    plain = [(o, info) for (o, info) in loops if info["depth"] == 1 and "fabs" not in info["calls"] and "reb_simulation_warning" not in info["calls"]]
+    divloop = [o for (o, info) in plain if "particles" in info["names"]]
+    iasloop = [o for (o, info) in plain if "ri_ias15" in info["names"]]
+    shape_ok = len(maxloop) == 1 and len(divloop) == 1 and len(iasloop) == 1 and len(plain) == 2
+    v.ground("rescale.every_state_linear_in_the_coordinates_has_its_rescaling_loop", shape_ok,
+             "expected one max loop, one loop dividing the particle coordinates and one loop dividing the IAS15 predictor / "
+             "compensation terms; found max loop %s, dividing loop %s, IAS15 state loop %s" % (maxloop, divloop, iasloop))
+    if not shape_ok:
+        from engine.cexec import PathEnd
+        raise PathEnd("rescale_var: loop structure does not match the contract (reported by the ground obligation)")
     ent = {}
+    Na, ias, ias0 = v.task_ias
 
     def cur(L, f):
         return L.eng._leaf_array(L.st.mem.objs[parts._a.id], (f,))
@@ -202,6 +228,27 @@ def rescale_loops(v, parts, idx, cnt, old, skolems=()):
         out.append(("frame", z3.And(*[cur(L, f) == old[f] for f in PFIELDS if f not in PV])))
         return out
     v.loop(RS, divloop[0], invariant=inv_div, variant=lambda L: cnt - L.i)
+
+    def inv_ias(L):
+        """IAS15 state loop: entries 3*index <= q < k of every predictor / compensation array are divided by the same scale,
+        all other entries and the particles are as at loop entry"""
+        kk = L.k
+        sc = as_real(L.scale)
+        if "ias_parts" not in ent:
+            ent["ias_parts"] = {f: cur(L, f) for f in PFIELDS}
+        out = [("range", z3.And(3 * idx <= kk, kk <= z3.If(3 * (idx + cnt) <= 3 * idx, 3 * idx, 3 * (idx + cnt)), z3.Or(kk == 3 * idx, kk <= Na))),
+               ("scale_fixed", sc == ent.get("scale", sc)), ("scale_large", sc > z3.RealVal("1e100")),
+               ("particles_untouched", z3.And(*[cur(L, f) == ent["ias_parts"][f] for f in PFIELDS]))]
+        for nm, q in skolems:
+            for key, a in ias.items():
+                now = z3.Select(L.eng._leaf_array(L.st.mem.objs[a._a.id], ()), 3 * q + ent["comp"])
+                was = z3.Select(ias0[key], 3 * q + ent["comp"])
+                inside = z3.And(3 * idx <= 3 * q + ent["comp"], 3 * q + ent["comp"] < kk)
+                out.append(("%s.ias15.%s%s" % (nm, key[0], "" if key[1] is None else ".p%d" % key[1]), z3.If(inside, now == was / sc, now == was)))
+        return out
+    ent["comp"] = v.int("component")
+    v.assume(0 <= ent["comp"], ent["comp"] < 3)
+    v.loop(RS, iasloop[0], invariant=inv_ias, variant=lambda L: 3 * (idx + cnt) - L.k)
     return ent
 
 
@@ -235,6 +282,8 @@ def rescale_task(testparticle):
             for f in PV:
                 v.prove("not_rescaled.particles_unchanged." + f, parts.array(f) == old[f])
             v.prove("not_rescaled.whfast_flag_unchanged", r.ri_whfast.recalculate_coordinates_this_timestep == flag0)
+            for key, a in v.task_ias[1].items():
+                v.prove("not_rescaled.ias15_state_unchanged.%s%s" % (key[0], "" if key[1] is None else ".p%d" % key[1]), a.array() == v.task_ias[2][key])
             return
         v.ground("rescaled.path_went_through_the_dividing_loop", "scale" in ent, "lrescale written but the dividing loop not reached")
         s_ = ent["scale"]
@@ -250,6 +299,16 @@ def rescale_task(testparticle):
             v.lemma("rescaled.magnitude_preserved." + f,
                     [EXP(lr + LOG(s_)) == EXP(lr) * s_, lr2 == lr + LOG(s_), parts.leaf(j, f) * s_ == z3.Select(old[f], j)],
                     parts.leaf(j, f) * EXP(lr2) == z3.Select(old[f], j) * EXP(lr), order=("polyid", "z3"))
+        # IAS15 state of the set is rescaled with it (and only for IAS15, only the set's entries that exist)
+        Na, ias, ias0 = v.task_ias
+        isias = r.integrator == v.enumc("REB_INTEGRATOR_IAS15")
+        for nm, q in (("j", j), ("o", o)):
+            e_ = 3 * q + ent["comp"]
+            for key, a in ias.items():
+                now, was = z3.Select(a.array(), e_), z3.Select(ias0[key], e_)
+                inset = z3.And(idx <= q, q < idx + cnt, e_ < Na)
+                v.prove("rescaled.ias15_state.%s.%s%s" % (nm, key[0], "" if key[1] is None else ".p%d" % key[1]),
+                        z3.If(z3.And(isias, inset), now == was / s_, now == was))
         v.prove("rescaled.whfast_flag", z3.If(z3.And(r.integrator == v.enumc("REB_INTEGRATOR_WHFAST"), r.ri_whfast.safe_mode == 0),
                                               r.ri_whfast.recalculate_coordinates_this_timestep == 1,
                                               r.ri_whfast.recalculate_coordinates_this_timestep == flag0))
@@ -280,6 +339,8 @@ def rescale_skip_task(name, order, lr_negative=False, unsync=None):
         v.prove("lrescale_unchanged", lr2 == lr)
         for f in PFIELDS:
             v.prove("particles_unchanged." + f, parts.array(f) == old[f])
+        for key, a in v.task_ias[1].items():
+            v.prove("ias15_state_unchanged.%s%s" % (key[0], "" if key[1] is None else ".p%d" % key[1]), a.array() == v.task_ias[2][key])
     return _
 
 
